@@ -766,6 +766,17 @@ def dynamic_events(case, spec, rng, units=(1.0, 1.0), phys_run=None):
 # ------------------------------------------------------------------------------------------------
 # two-run equivariance cases (C06: similarity / units, C07: labels / storage order / orientation)
 # ------------------------------------------------------------------------------------------------
+class quiet_np:
+    """forsys prints while it solves; numpy's error state is left as the package sets it"""
+    def __enter__(self):
+        from harness import core
+        self.cm = core.quiet_stdout()
+        return self.cm.__enter__()
+
+    def __exit__(self, *a):
+        return self.cm.__exit__(*a)
+
+
 def phys_event(case, run, t, o, frame, forsys, vidx, g, when=0, raised=""):
     """results keyed by PHYSICAL identity (junction-level vertex ids of the tissue, model cell index), obtained by
     undoing the known relabelling of this run (projection, no judgement)"""
@@ -809,8 +820,32 @@ def phys_event(case, run, t, o, frame, forsys, vidx, g, when=0, raised=""):
         cell = frame.cells.get(cid)
         if cell is not None and cell.pressure is not None and math.isfinite(float(cell.pressure)):
             pres.append([o["model_cell_of_desc"][pos_in_desc] + 1, fx(float(cell.pressure))])
+    # the pressure step on tensions ASSIGNED by physical interface (the same values in both runs of a pair, whatever the
+    # tension solve gave): pressures keyed by physical cell; compared by TLC whenever the cell graph is connected
+    pres2 = []
+    if g.get("kind") != "units" and fm is not None and not raised:
+        saved = [(be, be.tension) for be in internal]
+        try:
+            for be in internal:
+                q = q_of(be)
+                be.tension = 1.0 if q == 0 else 0.5 + ((q * 37) % 101) / 100.0
+            with quiet_np():
+                forsys.build_pressure_matrix(when=when)
+                forsys.solve_pressure(when=when, method="lagrange_pressure")
+            vals = []
+            for pos_in_desc, (cid, _) in enumerate(desc_cells):
+                cell = frame.cells.get(cid)
+                if cell is not None and cell.pressure is not None:
+                    vals.append([o["model_cell_of_desc"][pos_in_desc] + 1, float(cell.pressure)])
+            if all(math.isfinite(v) and abs(v) < 1000 for _, v in vals):
+                pres2 = [[c, fx(v)] for c, v in vals]
+        except Exception:
+            pres2 = []
+        finally:
+            for be, v in saved:
+                be.tension = v
     return {"case": case, "ev": "Phys", "run": run, "g": g, "tens": tens, "coefs": coefs, "junctions": sorted(junctions),
-            "internal": sorted(q_of(be) for be in internal), "pres": pres,
+            "internal": sorted(q_of(be) for be in internal), "pres": pres, "pres2": pres2,
             # a build / solve of this run that raised: the run is logged all the same (a transformation after which the
             # analysis raises has not left the results unchanged)
             "raised": str(raised)[:80]}
